@@ -213,7 +213,7 @@ class Recipe:
         self.rng = rng
         feats = ['case', 'blanks', 'tabs', 'cont5', 'amp', 'ccomment',
                  'dollar', 'message', 'numbers', 'shorthand', 'delims',
-                 'nofinalnl', 'indent', 'rho-any']
+                 'nofinalnl', 'indent', 'rho-any', 'extra-data']
         if only is not None:
             self.on = set(only)
         else:
@@ -358,6 +358,19 @@ def render_rewrite(deck, recipe, expand_like=False):
         shorthand = {'fill': rng.random() < 0.7, 'tr': rng.random() < 0.5,
                      'imp': rng.choice(['collapse', 'expand'])}
     cells, surfs, data = typed_cards(deck, expand_like, shorthand)
+    if 'extra-data' in recipe.on:
+        # data cards that have nothing to do with the geometry, at random
+        # places of the data block
+        pool = [['mode', 'n'], ['nps', '1000'], ['sdef', 'pos=0', '0', '0',
+                                                  'erg=1'],
+                ['f4:n', '1'], ['mt1', 'lwtr.10t'], ['cut:n', '1e8'],
+                ['phys:n', '20'], ['print'], ['prdmp', '2j', '1'],
+                ['kcode', '1000', '1.0', '10', '50'], ['ksrc', '0', '0', '0'],
+                ['e4', '1e-6', '1', '20'], ['totnu'], ['rand', 'gen=2'],
+                ['void'], ['tmp1', '2.5e-8'], ['area', '1', '2r'],
+                ['vol', '1', '1']]
+        for card in rng.sample(pool, rng.randint(1, 5)):
+            data.insert(rng.randint(0, len(data)), [(tok, 'id') for tok in card])
     lines = []
     if 'message' in recipe.on:
         lines += ['message: outp=dummy.o runtpe=dummy.r', '']
